@@ -279,6 +279,17 @@ def runOp (op : String) (a : List String) : Option String :=
   | "ecies.enc", [x, y, m, t] => do
     let x ← unnat x; let y ← unnat y; let m ← unhex m; let t ← untape t
     pure (match Ecies.encrypt pr (x,y) m t with | some (c, _) => "ok " ++ hx c | none => "err")
+  | "ecies.seq", [x, y, ms, t] => do
+    let x ← unnat x; let y ← unnat y; let t ← untape t
+    let msgs ← (ms.splitOn ",").mapM unhex
+    let rec goEnc (ms : List Bytes) (t : Rng.Tape) (acc : String) : String :=
+      match ms with
+      | [] => acc
+      | m :: rest =>
+        match Ecies.encrypt pr (x,y) m t with
+        | some (c, t') => goEnc rest t' (acc ++ " " ++ hx c)
+        | none => acc ++ " e"
+    pure (goEnc msgs t "ok")
   | "ecies.dec", [d, c] => do
     let d ← unnat d; let c ← unhex c
     pure (match Ecies.decrypt pr d c with | some m => "ok " ++ hx m | none => "err")
